@@ -55,6 +55,12 @@ def downtimeOnce (before after : State) (key : Nat) (infraction : Nat) : Bool :=
   else if before.outstanding.contains key then after.queue == before.queue && after.outstanding == before.outstanding
   else after.outstanding.contains key && after.queue.length == before.queue.length + 1
 
+/-- C08: applying validator-set changes never clears an outstanding-downtime flag, except for a key
+    that only now becomes a validator of the consumer (its stale flag is dropped) -/
+def flagsSurviveApply (before after : State) : Bool :=
+  before.outstanding.all fun k =>
+    after.outstanding.contains k || (!(before.cc.any (·.key == k)) && after.cc.any (·.key == k))
+
 /-- C08: slash acknowledgements carried by a VSC packet clear exactly the named flags -/
 def acksClear (before after : State) (acks : List Nat) : Bool :=
   after.outstanding == before.outstanding.filter fun k => !acks.contains k
